@@ -679,6 +679,17 @@ def discharge(fb, body, s):
                 if prove(lin_facts, i.add(Lin(0, {lenatom: 1}), -1).add(Lin(1)), unsigned):
                     return f"index proved < {lenatom} from dominating guards"
             return None
+        if w in ("slice::copy_from_slice", "slice::clone_from_slice") and len(args) >= 2:
+            # destination of a fixed array type `[T; N]` (unsized to a slice), source length proved == N by a guard
+            n_dst = _array_len(body, res, args[0])
+            n, roots = _arg_place(res, args[1])
+            if n_dst is None or n is None:
+                return None
+            lenatom = f"len({n})"
+            res.roots[lenatom] = roots
+            if prove(lin_facts, Lin(-n_dst, {lenatom: 1}), unsigned) and prove(lin_facts, Lin(n_dst, {lenatom: -1}), unsigned):
+                return f"{lenatom} == {n_dst} (length of the destination array) proved by a dominating length test"
+            return None
         if w in ("GenericArray::from(&[T])", "GenericArray::from_slice", "GenericArray::clone_from_slice") and args:
             n, roots = _arg_place(res, args[0])
             if n is None:
@@ -732,6 +743,29 @@ def discharge(fb, body, s):
                 if prove(lin_facts, xl.add(Lin(MAXLEN), -1), unsigned):
                     return "operand bounded by a length (<= isize::MAX) plus a small constant"
         return None
+    return None
+
+
+def _array_len(body, res, op, depth=0):
+    """N when the operand is `&mut [T; N]` unsized to a slice (or a reborrow of it)."""
+    if op.get("k") not in ("copy", "move") or depth > 6:
+        return None
+    l = op["pl"]["l"]
+    ty = body["locals"][l]
+    m = re.match(r"^&(mut )?\[[^;\]]+; (\d+)\]$", ty)
+    if m:
+        return int(m.group(2))
+    d = res.single_def(l)
+    if d and d[0] == "assign":
+        r = d[1]
+        if r.get("k") in ("cast", "use") and r["op"].get("k") in ("copy", "move"):
+            return _array_len(body, res, r["op"], depth + 1)
+        if r.get("k") == "ref":
+            ty2 = body["locals"][r["pl"]["l"]]
+            m2 = re.match(r"^\[[^;\]]+; (\d+)\]$", ty2)
+            if m2 and not [p for p in (r["pl"].get("p") or []) if p != "*"]:
+                return int(m2.group(1))
+            return _array_len(body, res, {"k": "copy", "pl": {"l": r["pl"]["l"]}}, depth + 1) if all(p == "*" for p in (r["pl"].get("p") or [])) else None
     return None
 
 
